@@ -309,7 +309,7 @@ def through_file_cases(ctx):
         for t in list(rmeta.SPECS):
             if t == 'end_of_track':
                 continue
-            for dress in ('plain', 'frozen', 'after-mid-eot', 'frozen-after-mid-eot'):
+            for dress in ('plain', 'frozen', 'after-mid-eot', 'frozen-after-mid-eot', 'encoded-before', 'frozen-encoded-before'):
                 a = genfile.rand_meta_attrs(rng, t)
                 if t in rmeta.TEXT_TYPES:
                     name = rmeta.SPECS[t][1][0]
@@ -327,6 +327,13 @@ def through_file_cases(ctx):
                 try:
                     m = MetaMessage(t, time=3, **a)
                     inside = freeze_message(m) if dress.startswith('frozen') else m
+                    if dress.endswith('encoded-before'):
+                        # the message object has been encoded, printed and hashed outside the file (default charset) before
+                        for f in (lambda: inside.bytes(), lambda: inside.hex(), lambda: str(inside), lambda: hash(inside)):
+                            try:
+                                f()
+                            except (UnicodeError, TypeError):
+                                pass
                     head = [mido.Message('note_on', note=1, time=2)]
                     if dress.endswith('after-mid-eot'):
                         head.append(MetaMessage('end_of_track', time=5))
